@@ -223,6 +223,18 @@ Proof.
     apply bank_pay_only, bank_only_fields in Hp. destruct Hp as (_ & _ & _ & _ & _ & He2 & _).
     rewrite He2, He1. simpl. apply keys_set_NoDup. assumption.
   - apply do_upgrade_inv in H. subst s'. assumption.
+  - revert s Hnd H Hbo. induction evs as [|[[[c from] to] amt] r IH]; simpl; intros s Hnd H Hbo.
+    + inversion H. subst. assumption.
+    + inv_bind H. apply (IH x); [|assumption|].
+      * apply do_hook_inv in E. destruct E as (sym0 & t & s2 & _ & _ & _ & _ & _ & _ & Hm & Hp).
+        apply bank_mint_only, bank_only_fields in Hm. destruct Hm as (_ & _ & _ & _ & _ & He1 & _).
+        apply bank_pay_only, bank_only_fields in Hp. destruct Hp as (_ & _ & _ & _ & _ & He2 & _).
+        rewrite He2, He1. simpl. apply keys_set_NoDup. assumption.
+      * intros s0 Hb. apply bank_only_fields in Hb. destruct Hb as (_ & _ & _ & _ & _ & He & _). rewrite He.
+        apply do_hook_inv in E. destruct E as (sym0 & t & s2 & _ & _ & _ & _ & _ & _ & Hm & Hp).
+        apply bank_mint_only, bank_only_fields in Hm. destruct Hm as (_ & _ & _ & _ & _ & He1 & _).
+        apply bank_pay_only, bank_only_fields in Hp. destruct Hp as (_ & _ & _ & _ & _ & He2 & _).
+        rewrite He2, He1. simpl. apply keys_set_NoDup. assumption.
 Qed.
 
 Lemma step_erc20_nodup s m : NoDup (keys (erc20 s)) -> NoDup (keys (erc20 (step s m))).
@@ -330,7 +342,7 @@ Proof.
 Qed.
 
 (** ** sequences of conversions: native supply + ERC20 supply of a bound token is constant *)
-Definition conversion (m : msg) : bool :=
+Definition conversion0 (m : msg) : bool :=
   match m with
   | ToErc20 _ _ _ _ | FromErc20 _ _ _ _ | HookToNative _ _ _ _ | EvmMode _
   | Deploy _ _ _ _ _ | UpgradeErc20 _ _ => true
@@ -393,8 +405,8 @@ Proof.
     repeat split; assumption.
 Qed.
 
-Lemma conversion_step s m d t :
-  RegInv s -> conversion m = true -> token_by_minunit s d = Some t -> t_contract t <> 0 ->
+Lemma conversion_step0 s m d t :
+  RegInv s -> conversion0 m = true -> token_by_minunit s d = Some t -> t_contract t <> 0 ->
   token_by_minunit (step s m) d = Some t
   /\ supply_of (step s m) d + erc20_total (step s m) (t_contract t) = supply_of s d + erc20_total s (t_contract t).
 Proof.
@@ -444,14 +456,14 @@ Proof.
     apply exec_inv in E. destruct E as [_ E]. simpl in E. apply do_upgrade_inv in E. subst s'. reflexivity.
 Qed.
 
-Lemma conversions_conserve_reachable ms : forall s d t,
-  RegInv s -> forallb conversion ms = true -> token_by_minunit s d = Some t -> t_contract t <> 0 ->
+Lemma conversions_conserve0 ms : forall s d t,
+  RegInv s -> forallb conversion0 ms = true -> token_by_minunit s d = Some t -> t_contract t <> 0 ->
   token_by_minunit (run s ms) d = Some t
   /\ supply_of (run s ms) d + erc20_total (run s ms) (t_contract t) = supply_of s d + erc20_total s (t_contract t).
 Proof.
   induction ms as [|m ms IH]; intros s d t R Hc Ht Hc0; simpl; [split; [assumption|reflexivity]|].
   simpl in Hc. apply Bool.andb_true_iff in Hc. destruct Hc as [Hm Hms].
-  destruct (conversion_step s m d t R Hm Ht Hc0) as (Ht' & Heq).
+  destruct (conversion_step0 s m d t R Hm Ht Hc0) as (Ht' & Heq).
   destruct (IH (step s m) d t (step_RegInv s m R) Hms Ht' Hc0) as [H1 H2].
   split; [assumption|]. rewrite H2. assumption.
 Qed.
@@ -474,4 +486,60 @@ Proof.
   split; [apply run_RegInv, genesis_RegInv|].
   split; [vm_compute; reflexivity|]. split; [vm_compute; reflexivity|].
   simpl. repeat split; discriminate.
+Qed.
+
+(** ** one EVM transaction with several SwapToNative events = the run of its events, when it succeeds *)
+Definition ev_msg (e : hook_ev) : msg := let '(c, from, to, amt) := e in HookToNative c from to amt.
+
+Lemma hook_multi_run evs : forall s s',
+  validate_basic (HookMulti evs) = true -> do_hook_multi s evs = ROk s' -> run s (map ev_msg evs) = s'.
+Proof.
+  induction evs as [|[[[c from] to] amt] r IH]; simpl; intros s s' V H.
+  - inversion H. reflexivity.
+  - apply Bool.andb_true_iff in V. destruct V as [V1 V2]. inv_bind H.
+    assert (Hst : step s (HookToNative c from to amt) = x).
+    { unfold step, exec. simpl validate_basic. rewrite V1. simpl. rewrite E. reflexivity. }
+    rewrite Hst. apply IH; assumption.
+Qed.
+
+Lemma ev_msgs_conversion0 evs : forallb conversion0 (map ev_msg evs) = true.
+Proof. induction evs as [|[[[c from] to] amt] r IH]; simpl; [reflexivity|assumption]. Qed.
+
+Definition conversion (m : msg) : bool := match m with HookMulti _ => true | _ => conversion0 m end.
+
+Lemma conversion_step s m d t :
+  RegInv s -> conversion m = true -> token_by_minunit s d = Some t -> t_contract t <> 0 ->
+  token_by_minunit (step s m) d = Some t
+  /\ supply_of (step s m) d + erc20_total (step s m) (t_contract t) = supply_of s d + erc20_total s (t_contract t).
+Proof.
+  intros R Hc Ht Hc0.
+  destruct m; try (apply conversion_step0; assumption).
+  destruct (step_cases s (HookMulti evs)) as [(s' & E & ->)|[_ ->]]; [|split; [assumption|reflexivity]].
+  apply exec_inv in E. destruct E as [V E]. simpl in E.
+  rewrite <- (hook_multi_run evs s s' V E).
+  apply conversions_conserve0; try assumption. apply ev_msgs_conversion0.
+Qed.
+
+Lemma conversions_conserve_reachable ms : forall s d t,
+  RegInv s -> forallb conversion ms = true -> token_by_minunit s d = Some t -> t_contract t <> 0 ->
+  token_by_minunit (run s ms) d = Some t
+  /\ supply_of (run s ms) d + erc20_total (run s ms) (t_contract t) = supply_of s d + erc20_total s (t_contract t).
+Proof.
+  induction ms as [|m ms IH]; intros s d t R Hc Ht Hc0; simpl; [split; [assumption|reflexivity]|].
+  simpl in Hc. apply Bool.andb_true_iff in Hc. destruct Hc as [Hm Hms].
+  destruct (conversion_step s m d t R Hm Ht Hc0) as (Ht' & Heq).
+  destruct (IH (step s m) d t (step_RegInv s m R) Hms Ht' Hc0) as [H1 H2].
+  split; [assumption|]. rewrite H2. assumption.
+Qed.
+
+Lemma hook_multi_exec_run s evs s' : exec s (HookMulti evs) = ROk s' -> run s (map ev_msg evs) = s'.
+Proof. intros E. apply exec_inv in E. destruct E as [V E]. apply hook_multi_run; assumption. Qed.
+
+Lemma hook_multi_conserve s evs s' d t :
+  RegInv s -> exec s (HookMulti evs) = ROk s' -> token_by_minunit s d = Some t -> t_contract t <> 0 ->
+  token_by_minunit s' d = Some t
+  /\ supply_of s' d + erc20_total s' (t_contract t) = supply_of s d + erc20_total s (t_contract t).
+Proof.
+  intros R E Ht Hc. pose proof (conversion_step s (HookMulti evs) d t R eq_refl Ht Hc) as H.
+  unfold step in H. rewrite E in H. exact H.
 Qed.
